@@ -258,10 +258,14 @@ fn measure_event<const D: usize>(tr: &mut Tracer, vec: &Value, transform: &str, 
         // exactly degenerate: errors, not finite garbage (a zero volume is a correct value)
         // sqrt(det Gram) turns a relative rounding error of 1e-16 into 1e-8: "zero" is relative to extent^D
         let extent = pts_i.iter().flatten().map(|x| x.abs()).max().unwrap_or(1).max(1) as f64 + shift.iter().map(|x| x.abs()).max().unwrap_or(0) as f64;
-        add("volume(degenerate)", v.as_ref().map_or(true, |x: &f64| x.abs() <= 1e-6 * (sc * extent).powi(D as i32)), format!("{v:?}"), "Err or ~0".into());
+        // an error, or the exact value 0; a non-zero "volume" of a flat simplex is rounding residue passed off as a result.
+        // `~0` records whether the residue is at least negligible against extent^D (used to tell findings apart)
+        let tiny_v = v.as_ref().map_or(true, |x: &f64| x.abs() <= 1e-6 * (sc * extent).powi(D as i32));
+        add("volume(degenerate)", v.as_ref().map_or(true, |x: &f64| *x == 0.0), format!("{v:?}"), format!("Err or 0 (negligible: {tiny_v})"));
         add("circumcenter(degenerate)", cc.is_err(), format!("{:?}", cc.as_ref().map(|p| p.coords().to_vec())), "Err".into());
         add("circumradius(degenerate)", cr.is_err(), format!("{cr:?}"), "Err".into());
-        add("inradius(degenerate)", ir.as_ref().map_or(true, |x: &f64| x.abs() <= 1e-6 * sc * extent), format!("{ir:?}"), "Err or ~0".into());
+        let tiny_r = ir.as_ref().map_or(true, |x: &f64| x.abs() <= 1e-6 * sc * extent);
+        add("inradius(degenerate)", ir.as_ref().map_or(true, |x: &f64| *x == 0.0), format!("{ir:?}"), format!("Err or 0 (negligible: {tiny_r})"));
         if let Some(r) = &rr {
             add("radius_ratio(degenerate)", r.is_err(), format!("{r:?}"), "Err".into());
         }
@@ -486,6 +490,10 @@ fn dedup_event<const D: usize>(tr: &mut Tracer, r: &mut Rng, idx: usize) {
     // epsilon in HALF lattice units: 0 (removes nothing), 1, 2, 3 half units
     let eh = r.below(4) as i64;
     let eps = eh as f64 * 0.5 * pow2(s);
+    // extreme ranges: a tolerance far below the spacing (coordinate / tolerance up to 2^72, beyond what an
+    // integer grid key can hold). On half-lattice points "closer than eps" then means "equal", which is what
+    // the specification's formulas say for eh = 1 as well (distances are 0 or >= one half unit).
+    let (eh, eps) = if idx % 3 == 2 { (1, pow2(s - *r.pick(&[30, 45, 54, 62, 64, 70]))) } else { (eh, eps) };
     let id_of = |v: &delaunay::core::vertex::Vertex<f64, VData, D>| v.data.map_or(0, i64::from);
     tr.tag = format!("C17 dedup D={D}");
     let g = tr.guard("dedup", || {
